@@ -140,6 +140,19 @@ def static_c12(o, facts, rep):
     for c in rep.get("LOCKED", []):
         o.violation("%s is called with locked=true at %s without the mutex held" % (c[0], c[1]),
                     {"kind": "static-locked-claim", "callee": c[0], "position": c[1], "detail": "locked=true without the object's mutex"})
+    seen_waits = set()
+    for w in rep.get("WAIT", []):
+        if (w[1], w[2], w[4], w[5]) in seen_waits:
+            continue
+        seen_waits.add((w[1], w[2], w[4], w[5]))
+        what = ("%s waits for %s (%s at %s, thread %s) while holding %s: every other request that needs that lock - also to other "
+                "repositories, also with an expired context - queues behind the wait" % (w[4], w[1], w[0], w[5], w[3], w[2]))
+        o.violation("olareg_waits_hold_no_mutex_partial fails on %s: %s" % (core.REPO, what),
+                    {"kind": "static-wait-holding-mutex", "obligation": "C12.olareg_waits_hold_no_mutex_partial", "tree": core.REPO,
+                     "wait": w[0], "class": w[1], "held": w[2], "thread": w[3], "function": w[4], "position": w[5], "detail": what,
+                     "how_to_replay": "VERIF_REPO=%s /verif/.work/bin/lockfacts -out <dir>; grep -A30 'def repoWaits' <dir>/LockFacts.lean" % core.REPO})
+    o.cov["obligations"] += 1
+    o.cov["discharged"] += 0 if rep.get("WAIT") else 1
     for c in rep.get("WGADD", []):
         o.violation("%s raises %s at %s on a published object without holding its token: the Add can overlap a collector's wg.Wait "
                     "(WaitGroup misuse; the collector may run while the request uses the repository)" % (c[1], c[0], c[2]),
@@ -331,9 +344,14 @@ def dynamic_c12(o, tier, facts):
                 o.cov["samples"].append({"profile": "conc-%s" % store, "requests": res["ops"][:8], "implementation": res["impl"][:8]})
             r.cleanup()
     # forced schedules / scenarios
-    for test, label, bound in (("TestVerifShutdown", "shutdown-parked", 3000), ("TestVerifLegacy", "legacy-layout", 4000)):
+    for test, label, bound, extra in (("TestVerifShutdown", "shutdown-parked", 3000, {}), ("TestVerifLegacy", "legacy-layout", 4000, {}),
+                                      ("TestVerifCollectorWait", "collectorwait-mem", 6000, {"VERIF_STORE": "mem"}),
+                                      ("TestVerifCollectorWait", "collectorwait-dir", 6000, {"VERIF_STORE": "dir"})):
         r = ConcRun(b, test, label)
-        res = r.run("gen", {"VERIF_SEED": o.seed, "VERIF_BOUND_MS": bound}, timeout=120)
+        res = r.run("gen", dict({"VERIF_SEED": o.seed, "VERIF_BOUND_MS": bound}, **extra), timeout=120)
+        if test == "TestVerifCollectorWait":
+            o.notes.setdefault("collector_wait", {})[label] = "established and judged" if "established and judged" in res["out"] else \
+                ("stalled" if "VERIF-STALL" in res["out"] else "not established")
         res["ops"] = [label]
         hits = report_mon(o, "C12", res, label, o.seed, C12_MONITORS)
         if not res["ok"] and not hits and "VERIF-STALL" not in res["out"]:
@@ -342,6 +360,7 @@ def dynamic_c12(o, tier, facts):
         observed |= set(s["observed"])
         totals["requests"] += max(1, s["requests"])
         r.cleanup()
+    prune_timer_probe(o, b)
     static_edges = {tuple(e) for e in facts["edges"]}
     mx = set(facts.get("mutexes", []))
     mutex_static = {e for e in static_edges if e[0] in mx and e[1] in mx}
@@ -351,6 +370,35 @@ def dynamic_c12(o, tier, facts):
     o.notes["dynamic"] = dict(totals, observed_class_edges=sorted(observed), observed_in_static=len(obs_pairs & static_edges),
                               static_mutex_edges=len(mutex_static), static_edges=len(static_edges),
                               static_mutex_edges_not_observed=sorted("%s->%s" % e for e in mutex_static - obs_pairs))
+
+
+PRUNE_CAUSE = "wait-holding:dir.repos/Cache.mu@timer:Cache.pruneAge@dir.repos"
+
+
+def prune_timer_probe(o, b):
+    """the exception of C12.olareg_waits_hold_no_mutex_partial (Lk.waitExceptions) on the real code: directory store with a
+    grace period and no ticker; the entry of `busy` in the cache of repositories ages out while a slow push is in flight, its
+    cleanup collects under the cache mutex, and a request with a 200 ms context / a request to another repository must still
+    return.  Only run while the static table has the exception; a stall is an open finding, printed as KNOWN-FINDING when
+    known_findings.json lists it and recorded in the evidence notes otherwise."""
+    rep = _cache.get("report") or {}
+    if not rep.get("WAITEXC"):
+        return
+    r = ConcRun(b, "TestVerifCollectorWait", "prunetimer-dir")
+    res = r.run("gen", {"VERIF_SEED": o.seed, "VERIF_BOUND_MS": 3000, "VERIF_STORE": "dir", "VERIF_PRUNE": "1"}, timeout=120)
+    stall = [m for m in res["mon"] if m[1] == "completes"]
+    note = {"static": [dict(zip(("wait", "class", "held", "thread", "function", "position"), w)) for w in rep["WAITEXC"]],
+            "dynamic": stall[0][2][:400] if stall else ("no stall: " + ("established and judged" if "established and judged" in res["out"] else "not established")),
+            "blocked_goroutines": blocked_goroutines(res["dump"], 8) if stall else []}
+    o.notes["prune_timer_probe"] = note
+    if stall:
+        entry = [k for k in core.known_findings().get("open", []) if k.get("property") == "C12" and k.get("cause") == PRUNE_CAUSE]
+        if entry:
+            o.known_finding("%s monitor=completes cause=%s witness=scenario prunetimer-dir: %s" % (entry[0].get("id", "?"), PRUNE_CAUSE, stall[0][2][:200]))
+        else:
+            note["unlisted"] = "open finding without an entry in known_findings.json (cause %s); excepted by name in Lk.waitExceptions" % PRUNE_CAUSE
+            core.log("C12: open finding without known_findings entry: " + PRUNE_CAUSE + " - " + stall[0][2][:200])
+    r.cleanup()
 
 
 def parse_races(out, limit=4):
@@ -460,9 +508,15 @@ class _ReplayProfile:
         r = ConcRun(self.binary, "TestVerifConc", tag)
         if len(ops) == 1 and ops[0] in ("shutdown-parked", "legacy-layout"):
             r.test = {"shutdown-parked": "TestVerifShutdown", "legacy-layout": "TestVerifLegacy"}[ops[0]]
+        self.extra = {}
+        if len(ops) == 1 and ops[0].startswith(("collectorwait-", "prunetimer-")):
+            r.test = "TestVerifCollectorWait"
+            self.extra = {"VERIF_STORE": ops[0].split("-")[1]}
+            if ops[0].startswith("prunetimer"):
+                self.extra["VERIF_PRUNE"] = "1"
         with open(r.p["ops"], "w") as f:
             f.write("\n".join(ops) + "\n")
-        res = r.run("replay", {"VERIF_BOUND_MS": 8000}, timeout=300)
+        res = r.run("replay", dict({"VERIF_BOUND_MS": 8000}, **getattr(self, "extra", {})), timeout=300)
         mon = ["MON %d %s %s" % m for m in res["mon"]]
         races, _ = parse_races(res["out"])
         mon += ["RACE " + " <-> ".join(x["olareg_frames"][:4]) for x in races]
@@ -486,4 +540,5 @@ def conc_race_profile(o):
 
 
 CHECKS = {"C12": check_C12, "C13": check_C13}
-PROFILES = {"conc": conc_profile, "shutdown": conc_profile, "legacy": conc_profile, "race": conc_race_profile}
+PROFILES = {"conc": conc_profile, "shutdown": conc_profile, "legacy": conc_profile, "race": conc_race_profile,
+            "collectorwait": conc_profile, "prunetimer": conc_profile}
